@@ -59,21 +59,26 @@ fn filename(path: &Path) -> Result<OsString> {
 
 fn has_backup(file: &Path) -> Result<bool> {
     let fname = filename(file)?;
-    let exists = ls_file_dir(file)?
-        .any(|der| if let Ok(de) = der {
-            is_num_backup(&fname, &de.path()).is_some()
-        } else {
-            false
-        });
-    Ok(exists)
+    // A directory entry that cannot be read is an error, not "no
+    // backup here".
+    for der in ls_file_dir(file)? {
+        if is_num_backup(&fname, &der?.path()).is_some() {
+            return Ok(true);
+        }
+    }
+    Ok(false)
 }
 
 fn next_backup_num(file: &Path) -> Result<u64> {
     let fname = filename(file)?;
-    let current = ls_file_dir(file)?
-        .filter_map(|der| is_num_backup(&fname, &der.ok()?.path()))
-        .max()
-        .unwrap_or(0);
+    // A directory entry that cannot be read is an error: skipping it
+    // could hand out a number that is already taken.
+    let mut current = 0;
+    for der in ls_file_dir(file)? {
+        if let Some(num) = is_num_backup(&fname, &der?.path()) {
+            current = current.max(num);
+        }
+    }
     Ok(current + 1)
 }
 
